@@ -63,7 +63,7 @@ fn k_c15_positions_before_sizing() {
 // ---- chains: a store may be SORTED on positions of another store (its order is only settled once that store's is).  Whatever the (acyclic)
 // ---- dependencies among up to three stores and whatever the order in which they were added, every store is settled before any store
 // ---- sizes its columns (defect F18: one positioning pass left a chain half settled, references were written truncated)
-static SETTLED: [AtomicU32; 3] = [AtomicU32::new(0), AtomicU32::new(0), AtomicU32::new(0)];
+static SETTLED: [AtomicU32; 4] = [AtomicU32::new(0), AtomicU32::new(0), AtomicU32::new(0), AtomicU32::new(0)];
 struct ChainStore {
     idx: usize,
     total: usize,
@@ -130,4 +130,37 @@ fn k_c15_chains_settled_before_sizing() {
     assert!(fin.is_ok());
     // a chain of two dependencies, against the order of insertion
     kani::cover!(n == 3 && deps[0] == Some(1) && deps[1] == Some(2));
+}
+
+// the same with FOUR stores (a chain of three dependencies needs more settling passes than a chain of two: a cap on the number of passes
+// that is right for three stores is wrong for four)
+// oblig: C15.c.chains4_settled_before_sizing kind=bounded(stores=4) timeout=1200 tier=quick
+#[kani::proof]
+#[kani::unwind(7)]
+#[kani::stub(value_store::StoreHandle::finalize, vs_finalize_stub)]
+fn k_c15_chains4_settled_before_sizing() {
+    let n: usize = 4;
+    let deps = [any_dep(0, n), any_dep(1, n), any_dep(2, n), any_dep(3, n)];
+    let mut i = 0;
+    while i < n {
+        let mut cur = deps[i];
+        let mut steps = 0;
+        while steps < 4 {
+            if let Some(c) = cur {
+                kani::assume(c != i);
+                cur = deps[c];
+            }
+            steps += 1;
+        }
+        i += 1;
+    }
+    let mut creator = DirectoryPackCreator::new(PackId::from(0u16), VendorId::from([0, 0, 0, 0]), Default::default());
+    let mut i = 0;
+    while i < n {
+        creator.add_entry_store(Box::new(ChainStore { idx: i, total: n, dep: deps[i] }));
+        i += 1;
+    }
+    let fin = creator.finalize();
+    assert!(fin.is_ok());
+    kani::cover!(deps[0] == Some(1) && deps[1] == Some(2) && deps[2] == Some(3));
 }
